@@ -382,7 +382,12 @@ class Analysis:
                 continue
             for x in self.trans_for.get(hi, []):
                 for y in self.trans_for.get(lo, []):
+                    if x == y and r["kind"] == "conflict":
+                        continue  # one transaction using both sides: judged below, no priority edge
                     edges.add((x, y))
+        for x, y, r in self.explicit_pairs():
+            if x == y and not self.self_conflict_exclusive(x, self.resolve(r["a"]), self.resolve(r["b"])):
+                out.append(("self-conflict", x))
         for bid, b in self.bodies.items():
             if b.parent is not None:
                 for x in self.trans_for.get(b.parent, []):
